@@ -209,7 +209,7 @@ func cmdCheck(args []string) int {
 			continue
 		}
 		claimed := hasTag(fc.Tags, *prop)
-		if !claimed && len(fc.Tags) > 0 && hasTag(strings.Fields(fc.Options["safety-tags"]), *prop) {
+		if !claimed && len(fc.Tags) > 0 && (hasTag(strings.Fields(fc.Options["safety-tags"]), *prop) || hasTag(strings.Fields(fc.Options["callpre-tags"]), *prop)) {
 			// a function verified for another property whose safety obligations belong to this one
 			claimed = true
 		}
@@ -253,7 +253,7 @@ func cmdCheck(args []string) int {
 		}
 		vc := newFnVC(p, fn, p.cs.Funcs[id], id)
 		vc.prop = *prop
-		scanOnly := (!hasTag(vc.fc.Tags, *prop) && !(len(vc.fc.Tags) > 0 && hasTag(strings.Fields(vc.fc.Options["safety-tags"]), *prop))) || *prop == "C19"
+		scanOnly := (!hasTag(vc.fc.Tags, *prop) && !(len(vc.fc.Tags) > 0 && (hasTag(strings.Fields(vc.fc.Options["safety-tags"]), *prop) || hasTag(strings.Fields(vc.fc.Options["callpre-tags"]), *prop)))) || *prop == "C19"
 		for _, cl := range vc.fc.Ensures {
 			if hasTag(cl.Tags, *prop) {
 				scanOnly = false
